@@ -204,6 +204,14 @@ def run_program(arg):
             it = P.plan.call(lambda: (j for j in range(1, m + 1)))
         elif src == "infinite":
             it = P.plan.call(lambda: itertools.count(1))
+        elif src == "dict":
+            it = P.plan.call(lambda: {j: str(j) for j in range(1, m + 1)})      # iterating a dict yields its keys
+        elif src == "frozenset":
+            it = P.plan.call(lambda: frozenset(range(1, m + 1)))
+        elif src == "dictvalues":
+            it = P.plan.call(lambda: {str(j): j for j in range(1, m + 1)}.values())
+        elif src == "literal_dict":
+            it = {j: str(j) for j in range(1, m + 1)}
         else:
             it = P.plan.call(lambda: tuple(range(1, m + 1)))
         parts = P.plan.unpack(it, n)
@@ -244,7 +252,7 @@ def gen_programs(tier, seed):
         progs.append({"mode": "args", "pos": pos, "kw": kwl, "W": rng.choice([1, 3]), "sched": rng.choice([None, "random"])})
     for n in range(0, 4):
         for m in range(0, 6):
-            for src in ("list", "tuple", "gen"):
+            for src in ("list", "tuple", "gen", "dict", "frozenset", "dictvalues", "literal_dict"):
                 progs.append({"mode": "unpack", "n": n, "m": m, "src": src, "W": rng.choice([1, 2])})
         progs.append({"mode": "unpack", "n": n, "m": 99, "src": "infinite", "W": 1})
     return progs
